@@ -168,6 +168,22 @@ pub fn run_observed<'a, P>(
 where
     P: crate::problems::Instrumented,
 {
+    run_observed_prepared(cfg, problem, seed, parallel, pool, |_| {}, obs)
+}
+
+/// Like [`run_observed`], with `prepare` called on the fresh state (e.g. to push a prepared population).
+pub fn run_observed_prepared<'a, P>(
+    cfg: &mahf::Configuration<P>,
+    problem: &'a P,
+    seed: u64,
+    parallel: bool,
+    pool: Option<&rayon::ThreadPool>,
+    prepare: impl FnOnce(&mut State<'a, P>) + Send,
+    obs: impl FnMut(StepEvent<'_, P>, &P, &State<P>) + Send + 'a,
+) -> RunResult<'a, P>
+where
+    P: crate::problems::Instrumented,
+{
     let go = move || {
         crate::util::catch(move || {
             cfg.optimize_with(problem, |state: &mut State<'a, P>| {
@@ -177,6 +193,7 @@ where
                     state.insert_evaluator(mahf::problems::evaluate::Sequential::<P>::new());
                 }
                 state.insert(mahf::state::Random::new(seed));
+                prepare(state);
                 install(state, obs);
                 Ok(())
             })
